@@ -514,20 +514,20 @@ def enumerate_cases(ctx):
     ctx.scope('_find_best_channels: all 2-sample templates on 1..4 channels over value alphabets %s x positions '
               '(tie-free line, renumbered line, line with distance ties, 2-D) x shank maps (1-2 shanks) x '
               'n_closest_channels in {1,2,3,5} (below/above the channel count) x threshold in {attr 0, 0, .5, 1, attr .5} '
-              '(exhaustive; the widest alphabet of a channel count on a third of the configurations)' % ({k: v for k, v in alph.items()},))
+              '(exhaustive; the widest alphabet of a channel count on a sixth of the configurations; quick tier: n_closest in {1,2,5} for >= 3 channels, three quarters of the geometry x n_closest combinations)' % ({k: v for k, v in alph.items()},))
     for nc in (1, 2, 3, 4):
         for pi, pos in enumerate(POS[nc]):
             for si, sh in enumerate(SHANKS[nc]):
                 if nc == 4 and (pi + si) % 2:
                     continue
                 for ncl in (1, 2, 3, 5):
-                    if (ncl > nc + 1 and ncl != 5) or (quick and nc >= 3 and ncl == 3):
+                    if (ncl > nc + 1 and ncl != 5) or (quick and nc >= 3 and (ncl == 3 or (pi + si + ncl) % 4 == 3)):
                         continue
                     for thr, attr in ((None, 0), (0.5, 0), (1, 0), (None, 0.5), (0, 0.5)):
                         if quick and nc >= 3 and (thr, attr) == (0, 0.5):
                             continue
                         for ai, al in enumerate(alph[nc]):
-                            if ai and (pi + si + ncl) % 3:   # the widest alphabet on a third of the configurations
+                            if ai and (pi + si + ncl) % 6:   # the widest alphabet on a sixth of the configurations
                                 continue
                             for tpl in _templates(nc, al):
                                 if ai and not any(v == 1 for r in tpl for v in r):
